@@ -12,7 +12,7 @@ import z3
 from .interp import (PyRaise, NeedFork, Infeasible, is_pynum, kind_of, zof, join_kind, mk, zbool, FP, RNE)
 from .values import (S, VOpt, VQty, VTime, VDelta, VEnum, SEnum, VRec, VRef, HObj, HList, HDict,
                      HSet, SymSeq, SymSet, SymMap, FuncRef, ClassRef, ModRef, ExtRef,
-                     BoundBuiltin, Opaque, Unsupported, fresh_name, zreal, KeySetVal, HKeySet)
+                     BoundBuiltin, Opaque, Unsupported, fresh_name, zreal, KeySetVal, HKeySet, HOptDict)
 
 BUILTINS = {
     "max", "min", "abs", "len", "sum", "all", "any", "isinstance", "float", "int", "bool", "set",
@@ -390,6 +390,9 @@ def call_bound(it, f: BoundBuiltin, args, kwargs):
             return set_method(it, t, h, name, args, kwargs)
         if isinstance(h, HKeySet):
             return keyset_method(it, t, h, name, args, kwargs)
+        if isinstance(h, HOptDict):
+            from . import optdict
+            return optdict.method(it, t, h, name, args, kwargs)
     if isinstance(t, frozenset):
         if name == "union":
             out = set(t)
@@ -872,6 +875,9 @@ def call_builtin(it, name, args, kwargs):
             if isinstance(h, HKeySet):
                 from . import keysets
                 return mk(keysets.enumeration(it.engine, it, h.val).length, "int")
+            if isinstance(h, HOptDict):
+                from . import optdict
+                return optdict.length(it, h)
             return it.call_method(x, "__len__", [], {})
         if isinstance(x, SymSeq):
             return mk(x.length, "int")
